@@ -14,7 +14,7 @@ use serde_json::{json, Value};
 pub static ENGINE: Engine = Engine {
     prop: "C11",
     level: "exploration",
-    rule: "every formula with <= 3 (4) AST nodes over the CLI alphabet that mentions 2..4 distinct names x EVERY ordering text of a family: all permutations, all ordered strict subsets, supersets with one unused name at every position and two unused names around, duplicated names, and decorated texts (commas, comments, keywords, symbols, numbers between the names). Real binary: `-o <file> -t` = reference table with the header in the prescribed order; `-r` lists the formula's names in that order; every edge of the `-d` export goes from an earlier to a later variable; feeding the `-r` output back through `-o` reproduces the `-t` output byte for byte. API: ParsedFormula::new(text, Some(ordering)) with distinct non-contiguous ids for every permutation (+ an unused symbol): truth table by name = reference, free_vars / vars sorted by id in the prescribed order, to_free_index consistent, diagram ordered by id. distinct = distinct (formula, ordering, output kind)",
+    rule: "every formula with <= 3 (4) AST nodes over the CLI alphabet that mentions 2..4 distinct names x EVERY ordering text of a family: all permutations, all ordered strict subsets, supersets with one unused name at every position and two unused names around, duplicated names, and decorated texts (commas, comments, keywords, symbols, numbers between the names). Real binary: `-o <file> -t` = reference table with the header in the prescribed order; `-r` lists the formula's names in that order; every edge of the `-d` export goes from an earlier to a later variable; feeding the `-r` output back through `-o` reproduces the `-t` output byte for byte. API: ParsedFormula::new(text, Some(ordering)) with distinct non-contiguous ids for every permutation (+ an unused symbol) and for every ordered strict subset as a partial ordering: truth table by name = reference, free_vars / vars sorted by id in the prescribed order, to_free_index consistent, diagram ordered by id. distinct = distinct (formula, ordering, output kind)",
     assumptions: &["prescribed order = names of the ordering text in order of first appearance, then the formula's remaining names in order of first appearance", "reference semantics of harness/src/refl.rs"],
     max_shards: 64,
     run,
@@ -159,6 +159,62 @@ fn check_cli(ctx: &mut Ctx, a: &Ast, text: &str, ord: &str, full: bool) {
     ctx.sample(|| json!({"formula": text, "ordering": ord, "table": r1.run.out()}));
 }
 
+/// API ordering that lists only some of the formula's names (ids with gaps, not starting at
+/// zero): the listed names come first in id order, the others follow in order of appearance
+fn check_api_subset(ctx: &mut Ctx, a: &Ast, text: &str, subset: &[usize]) {
+    let Some(exp) = expect_of(a) else { return };
+    let c = json!({"part": "api-subset", "text": text, "subset": subset});
+    ctx.begin_case(|| c.clone());
+    ctx.count("evaluations", 1);
+    let ids = [2usize, 5, 9, 14];
+    let ordering: Vec<rsbdd::NamedSymbol> = subset.iter().enumerate().map(|(j, p)| sym(&exp.names[*p], ids[j])).collect();
+    let mut order: Vec<String> = subset.iter().map(|p| exp.names[*p].clone()).collect();
+    for n in &exp.names {
+        if !order.contains(n) {
+            order.push(n.clone());
+        }
+    }
+    let key = format!("{TAG} api {:?} with partial ordering {:?}", text, ordering.iter().map(|s| format!("{}#{}", s.name, s.id)).collect::<Vec<_>>());
+    ctx.distinct(&key);
+    let p = match impl_parse_bytes(text.as_bytes(), Some(ordering)) {
+        ImplParse::Ok(p) => p,
+        ImplParse::Err(e) => {
+            ctx.violation(key, format!("rejected: {e}"), c);
+            return;
+        }
+        ImplParse::Panic(m) => {
+            ctx.violation(key, format!("parser panicked: {m}"), c);
+            return;
+        }
+    };
+    let mut cs = vec![];
+    let want_free: Vec<String> = order.iter().filter(|n| exp.free.contains(n)).cloned().collect();
+    if names_of(&p.vars) != order {
+        cs.push(format!("vars = {:?}, expected {:?}", names_of(&p.vars), order));
+    }
+    if names_of(&p.free_vars) != want_free {
+        cs.push(format!("free_vars = {:?}, expected {:?}", names_of(&p.free_vars), want_free));
+    }
+    let mut ids_seen: Vec<usize> = p.vars.iter().map(|v| v.id).collect();
+    ids_seen.sort_unstable();
+    ids_seen.dedup();
+    if ids_seen.len() != p.vars.len() {
+        cs.push("two different names received the same variable id".to_string());
+    }
+    match impl_eval(&p) {
+        Err(m) => cs.push(format!("evaluation failed: {m}")),
+        Ok(res) => match tt_named(&res, &exp.names) {
+            Err(e) => cs.push(e),
+            Ok(t) if t != exp.want => cs.push(format!("under this ordering the answer denotes {t:#x} over {:?}, under the default order {:#x}", exp.names, exp.want)),
+            _ => {}
+        },
+    }
+    if !cs.is_empty() {
+        cs.truncate(4);
+        ctx.violation(key, cs.join("; "), c);
+    }
+}
+
 fn check_api(ctx: &mut Ctx, a: &Ast, text: &str, perm: &[usize], with_unused: bool) {
     let Some(exp) = expect_of(a) else { return };
     let c = json!({"part": "api", "text": text, "perm": perm, "unused": with_unused});
@@ -285,6 +341,19 @@ fn run(ctx: &mut Ctx) {
                 }
             }
         }
+        // every ordered strict subset as a partial API ordering
+        let n = names.len();
+        for mask in 1..((1usize << n) - 1) {
+            let sub: Vec<usize> = (0..n).filter(|i| mask & (1 << i) != 0).collect();
+            for p in permutations(sub.len()) {
+                let l: Vec<usize> = p.iter().map(|i| sub[*i]).collect();
+                idx += 1;
+                if ctx.mine(idx) {
+                    check_api_subset(ctx, a, &text, &l);
+                    ctx.count("api_cases", 1);
+                }
+            }
+        }
     }
     crate::cli::cleanup_scratch();
 }
@@ -292,6 +361,11 @@ fn run(ctx: &mut Ctx) {
 fn replay(ctx: &mut Ctx, c: &Value) {
     let text = c["text"].as_str().unwrap_or("");
     let Ok(a) = refl::parse(text) else { return };
+    if c["part"].as_str() == Some("api-subset") {
+        let sub: Vec<usize> = c["subset"].as_array().map(|x| x.iter().map(|v| v.as_u64().unwrap_or(0) as usize).collect()).unwrap_or_default();
+        check_api_subset(ctx, &a, text, &sub);
+        return;
+    }
     if c["part"].as_str() == Some("api") {
         let perm: Vec<usize> = c["perm"].as_array().map(|x| x.iter().map(|v| v.as_u64().unwrap_or(0) as usize).collect()).unwrap_or_default();
         check_api(ctx, &a, text, &perm, c["unused"].as_bool().unwrap_or(false));
